@@ -589,6 +589,13 @@ func (s *socket) closeTransport(discard bool) {
 	socket_log.Debug("closing the transport (discard? %t)", discard)
 	if discard {
 		s.Transport().Discard()
+		if s.Transport().ReadyState() == "closing" {
+			// An orderly close is already buffered on the transport (it waits for the
+			// next poll, a drain or the close timeout) and Close below is a no-op for
+			// a closing transport: discarding means not waiting for any of that.
+			s.OnClose("forced close")
+			return
+		}
 	}
 	s.Transport().Close(func() { s.OnClose("forced close") })
 }
